@@ -563,7 +563,15 @@ func loopOptsFacts(pkgs []*packages.Package, b *strings.Builder) {
 		rows = append(rows, fmt.Sprintf("  (%q, %q)", m, "function not found"))
 	}
 	b.WriteString(strings.Join(rows, ",\n") + "]\n\n")
-	b.WriteString("/-- the fuel handed to every generated loop function (not trusted: too little fuel shows as `.hang`) -/\ndef optsFuels : List (String × String) := [\n  " + strings.Join(g.fuels, ",\n  ") + "]\n\n")
+	var fuels []string // only the loops of functions that were translated (a refused function may have had a first loop)
+	for _, fl := range g.fuels {
+		for _, fn := range g.order {
+			if strings.HasPrefix(fl, "(\""+fn.lean+"_loop") {
+				fuels = append(fuels, fl)
+			}
+		}
+	}
+	b.WriteString("/-- the fuel handed to every generated loop function (not trusted: too little fuel shows as `.hang`) -/\ndef optsFuels : List (String × String) := [\n  " + strings.Join(fuels, ",\n  ") + "]\n\n")
 	var ek []string
 	for k := range ext.errs {
 		ek = append(ek, k)
